@@ -11,11 +11,11 @@ COMMON_NOTE = (
     "canonicalisation in harness/sut.py, Fraction/JSON wire, Lean driver decoding); float64 is treated as exact on the dyadic "
     "input lattice (DESIGN.md §3); numpy/pandas/xarray/geographiclib behaviour is modelled, not verified. C01, C03, C04, C05, C07, C09, C11, C12, C14, C19, C20 also "
     "have source pins: literal tables, signature defaults, the layout dispatch of Config.__init__ (C07) and the window comparisons of the stream front ends (C05) "
-    "read from /repo by harness/extract.py (Python ast) and checked by the kernel against IoosQc/Theorems/SourcePin.lean on every run. C03, C04, C06, C08, C09, C10, C11, C12, C13, C14, C19 additionally have a TRANSLATED model: harness/translate.py "
+    "read from /repo by harness/extract.py (Python ast) and checked by the kernel against IoosQc/Theorems/SourcePin.lean on every run. C03, C04, C05, C06, C08, C09, C10, C11, C12, C13, C14, C18, C19 additionally have a TRANSLATED model: harness/translate.py "
     "(Python ast -> Lean, a translator that raises on anything outside its vocabulary) regenerates the array-level Lean definitions of ALL ELEVEN QC test "
     "functions (gross_range, valid_range, location, climatology + ClimatologyConfig.check, spike, rate_of_change, flat_line, attenuated_signal, "
-    "density_inversion, pressure_increasing, speed), of qartod_compare, collect_results_dict and PandasStore.save from /repo's current source on every run and the kernel checks that they are the "
-    "definitions of IoosQc/Model/NpSrc.lean / NpAgg.lean / NpStore.lean, which Theorems/NpSrc … NpSrc7 + NpRefine prove equal to the pointwise models the property "
+    "density_inversion, pressure_increasing, speed), of qartod_compare, Call.run, collect_results_dict and PandasStore.save from /repo's current source on every run and the kernel checks that they are the "
+    "definitions of IoosQc/Model/NpSrc.lean / NpAgg.lean / NpStore.lean / NpCollect.lean / NpCall.lean, which Theorems/NpSrc … NpSrc9 + NpRefine prove equal to the pointwise models the property "
     "theorems are about (theorems Cxx_src_*; Theorems/SrcProps restates the property theorems directly about the translated programs, Cxx_prog_*; numpy.ma's data-under-mask semantics, strided windows, index arrays, for loops "
     "modelled in Model/Np and compared primitive by primitive with the installed numpy on every run); a rewritten body makes that pin 'reshaped' — "
     "nothing is claimed from it and the correspondence run remains the tie. C05, C06, C18 also compare complete real runs with the pipeline model "
@@ -99,7 +99,8 @@ CHECKS.update({
             "(Config.contexts grouping -> window rows -> Call.run binding -> test model -> collection) yields exactly one result per configured "
             "(context, present stream, test), the direct call on the window rows (C05_sys_yield_sound / _complete), the same for every front-end "
             "mechanism, untouched by rows outside the window; complete real runs are compared with that one model value. NaT rows: C05_numpy_mask_nat. "
-            "C05_pin_window: the comparison operators the three front ends apply to the window bounds (>= starting, < ending) are read from the source.",
+            "C05_pin_window: the comparison operators the three front ends apply to the window bounds (>= starting, < ending) are read from the source. "
+            "C05_src_call: Call.run, regenerated from the source by harness/translate.py, equals the model callRun of the keyword theorems.",
             "Lean 4 proof (refinement of each front end's window mechanism to the specification mask; soundness / completeness of the pipeline model) "
             "+ differential correspondence, per context and end to end"),
     "C06": ("Theorems scatter_getD, C06_collect_spec, C06_dict_spec, C06_order_independent, C06_main: numpy boolean-mask assignment "
